@@ -116,20 +116,55 @@ func TestVerifC12_fp384(t *testing.T) {
 	f.CheckUn(r, unops[3], unred, true)
 	f.CheckUn(r, unops[5], unred, true)
 
-	// SetBigInt on integers outside [0, 2^384): negative and wide values are reduced
-	nsb := 0
-	for i, v := range []*big.Int{big.NewInt(-1), big.NewInt(-255), new(big.Int).Neg(P), new(big.Int).Neg(R), R, new(big.Int).Add(R, big.NewInt(1)),
-		new(big.Int).Mul(R, R), new(big.Int).Sub(new(big.Int).Mul(P, P), big.NewInt(1)), new(big.Int).Lsh(P, 1), new(big.Int).Neg(bf.Pseudo("fp384-neg", 0, bf.Pow2(900)))} {
-		z := new(fp384)
-		*z = *red.E[red.Len()/2].(*fp384)
-		z.SetBigInt(new(big.Int).Set(v))
-		cid := "p384.fp.SetBigInt#wide" + big.NewInt(int64(i)).String()
-		r.Eval(1)
-		r.Distinct(cid)
-		nsb++
-		f.Expect(r, "SetBigInt", "wide-or-negative", cid, z, v, v.BitLen() > 384 || v.Sign() < 0, new(big.Int).Abs(v))
+	// SetBigInt over the signed boundary ladder (0, +-1, +-(p-1), +-p, +-(p+1), +-(p+9), +-(2p-1), +-2p, +-(2^384-1), +-2^384, +-(2^384+1),
+	// +-(k*p+-1), multi-word-longer values), each into a junk-filled receiver, against the Euclidean residue.
+	// Values in [p, 2^384) are kept unreduced by design, so only the residue is demanded.
+	ladder := bf.SignedLadder(P, 384, "p384.fp")
+	f.CheckFromInt(r, "SetBigInt", 384, ladder, false, func(z bf.Elem, v *big.Int) bool { z.(*fp384).SetBigInt(v); return true })
+	r.RequireCounter("p384.fp.SetBigInt.from-int", 80)
+	// ... and through the Montgomery round trip the point code uses
+	f.CheckFromInt(r, "SetBigInt-encode-decode", 384, ladder, true, func(z bf.Elem, v *big.Int) bool {
+		e := z.(*fp384)
+		e.SetBigInt(v)
+		montEncode(e, e)
+		montDecode(e, e)
+		return true
+	})
+	// the scalar paths of the package: reduceScalar (big-endian bytes -> 48 bytes mod N) and toOdd
+	{
+		N := bf.N384
+		c := curve{}
+		ns, no := 0, 0
+		for i, o := range bf.NonNegative(bf.SignedLadder(N, 384, "p384.scalar")) {
+			for _, pad := range []int{0, 3} {
+				k := append(make([]byte, pad), o.V.Bytes()...)
+				got := c.reduceScalar(k)
+				r.Eval(1)
+				ns++
+				cid := "p384.reduceScalar#int" + big.NewInt(int64(i)).String()
+				r.Distinct(cid, pad)
+				want := new(big.Int).Mod(o.V, N)
+				if len(got) != sizeFp || new(big.Int).SetBytes(got).Cmp(want) != 0 {
+					r.Violation("C12|p384.reduceScalar|wrong-residue|-|integer", cid, "reduceScalar("+o.Name+" = "+o.V.Text(16)+") = "+new(big.Int).SetBytes(got).Text(16)+", want "+want.Text(16), map[string]string{"value": o.V.Text(16)})
+					continue
+				}
+				odd, isEven := c.toOdd(got)
+				r.Eval(1)
+				no++
+				wantOdd := new(big.Int).Set(want)
+				wantEven := 1 - int(want.Bit(0))
+				if wantEven == 1 {
+					wantOdd.Neg(want).Mod(wantOdd, N)
+				}
+				if isEven != wantEven || new(big.Int).SetBytes(odd).Cmp(wantOdd) != 0 {
+					r.Violation("C12|p384.toOdd|wrong-residue|-|integer", "p384.toOdd#int"+big.NewInt(int64(i)).String(), "toOdd("+want.Text(16)+") = ("+new(big.Int).SetBytes(odd).Text(16)+", "+big.NewInt(int64(isEven)).String()+")", map[string]string{"value": want.Text(16)})
+				}
+			}
+		}
+		r.Count("p384.reduceScalar.from-int", ns)
+		r.Count("p384.toOdd.from-int", no)
+		r.RequireCounter("p384.reduceScalar.from-int", 80)
 	}
-	r.Count("p384.fp.SetBigInt.wide-or-negative", nsb)
 
 	small := f.Prepare("k", bf.Thin(red.Ops, r.Pick(40, 120)))
 	// the assembly moves for every non-zero selector; the package uses 0 and 1 (and its test -2..2)
